@@ -10,7 +10,7 @@ From V.lib Require Import Base.
 From V.c05 Require Import C05Model C05FragModel C05CodecModel.
 From V.c12 Require C12Model.
 From V.c02 Require Import C02AggModel C02AggSizeProofs C02AggOptProofs C02AggFragProofs C02AggFileProofs
-  C02AggPureProofs C02AggC12Proofs C02AggScanProofs C02AggSencModel C02AggSencProofs C02AggExamples.
+  C02AggPureProofs C02AggC12Proofs C02AggC05Proofs C02AggScanProofs C02AggSencModel C02AggSencProofs C02AggExamples.
 
 (* ---- bytes written = Size() afterwards = sum of the box lengths; every top-level box header is right;
         Size() beforehand is the same when trun optimisation is off; well-formedness is kept *)
@@ -191,6 +191,16 @@ Theorem C02_c05_moof_size : forall seq fr,
   amoof_size (of_c05_moof seq fr) = moof_size fr.
 Proof. exact of_c05_moof_size. Qed.
 Print Assumptions C02_c05_moof_size.
+
+(* SetTrunDataOffsets: with pairwise different write order numbers (what the Add* operations make) this model's
+   position-keyed, stably sorted table gives exactly the data offsets of C05FragModel.set_offsets: C05's theorems
+   about the offsets (C05_offsets, C05_roundtrip ...) speak about the fragments this model encodes *)
+Theorem C02_c05_set_offsets : forall seq fr,
+  fr_moofx fr = 0 -> Forall (fun t => tf_extra t = 0 /\ td_version (tf_dt t) <= 1) (fr_trafs fr) ->
+  NoDup (map tr_won (all_truns (fr_trafs fr))) ->
+  aset_offsets (of_c05_moof seq fr) (fr_mdat fr) = (of_c05_moof seq (set_offsets fr), fr_mdat (set_offsets fr)).
+Proof. exact aset_offsets_c05. Qed.
+Print Assumptions C02_c05_set_offsets.
 
 (* ---- and C12's model of File.Encode in segment mode (which boxes, in which order) lists, for the structure
         reached after Encode, exactly the boxes written here: same number, same order, Size() = bytes written *)
